@@ -110,7 +110,13 @@ def gym_layer(ctx):
                         bad = [k for k in val if not space[k].contains(val[k])]
                         ctx.violation(f'gym {what} space of {name} ({kind}) does not contain the {what}: keys {bad}, dtypes {[str(val[k].dtype) for k in bad]}',
                                       {'env': name, 'kind': kind, 'step': t})
-                obs, rew, done, info = genv.step(r.randrange(genv.action_space.n))
+                act = r.randrange(genv.action_space.n)
+                try:
+                    obs, rew, done, info = genv.step(act)
+                except Exception as e:  # noqa: BLE001
+                    ctx.violation(f'a step of {name} through the gym layer ({kind}) raised {type(e).__name__}: {e} -- the state reached from reset is not accepted by the declared space',
+                                  {'env': name, 'kind': kind, 'step': t, 'action': act})
+                    break
                 if done:
                     obs = genv.reset()
         # switching representations on one environment object: the advertised spaces must follow every switch
@@ -128,7 +134,11 @@ def gym_layer(ctx):
                         bad = [k for k in val if not space[k].contains(val[k])]
                         ctx.violation(f'after switching the {which} representation to `{kind}`, the gym {what} space of {name} does not contain the {what}: keys {bad}',
                                       {'env': name, 'switch': [which, kind], 'step': t})
-                genv.step(r.randrange(genv.action_space.n))
+                try:
+                    genv.step(r.randrange(genv.action_space.n))
+                except Exception as e:  # noqa: BLE001
+                    ctx.violation(f'a step of {name} through the gym layer raised {type(e).__name__}: {e}', {'env': name, 'step': t})
+                    break
 
 
 if __name__ == '__main__':
